@@ -416,9 +416,9 @@ def oracle_trees(c, out):
     if c["wf"] != "valid":
         return None                       # outside the stated domain: no claim
     if out[0] == "hang":
-        return "routing_tree_to_tables does not terminate"
+        return ("tables:hang", "routing_tree_to_tables does not terminate")
     if out[0] == "other":
-        return "raised %s on well-formed trees" % out[1]
+        return ("tables:raises", "raised %s on well-formed trees" % out[1])
     keys = {n: tuple(km) for n, km in c["net_keys"]}
     seen = {}                              # (chip, key, mask) -> list of (in, outs)
     for n, t in c["routes"]:
@@ -430,30 +430,33 @@ def oracle_trees(c, out):
     if out[0] == "multisource":
         k = (tuple(out[3]), out[1], out[2])
         if k not in conflicts:
-            return "MultisourceRouteError(%#x, %#x, %r) although all trees with that key and mask leave that " \
-                   "chip by the same set of routes" % (out[1], out[2], out[3])
+            return ("tables:spurious-multisource",
+                    "MultisourceRouteError(%#x, %#x, %r) although all trees with that key and mask leave that "
+                    "chip by the same set of routes" % (out[1], out[2], out[3]))
         return None
     if conflicts:
         k = sorted(conflicts)[0]
-        return "no MultisourceRouteError although trees with key %#x mask %#x fork differently on chip %r" % (
-            k[1], k[2], k[0])
+        return ("tables:missed-multisource", "no MultisourceRouteError although trees with key %#x mask %#x "
+                "fork differently on chip %r" % (k[1], k[2], k[0]))
     got = {}
     for xy, es in out[1]:
         for e in es:
             k = (tuple(xy), e[1], e[2])
             if k in got:
-                return "two entries with key %#x mask %#x on chip %r" % (e[1], e[2], xy)
+                return ("tables:duplicate-entry", "two entries with key %#x mask %#x on chip %r" % (e[1], e[2], xy))
             got[k] = e
     if set(got) != set(seen):
         missing, extra = sorted(set(seen) - set(got)), sorted(set(got) - set(seen))
-        return "entries missing for %r, unexpected for %r" % (missing[:3], extra[:3])
+        return ("tables:entries-missing-or-extra", "entries missing for %r, unexpected for %r" % (missing[:3], extra[:3]))
     for k, e in got.items():
         outs = seen[k][0][1]
         if set(e[0]) != set(outs):
-            return "chip %r key %#x: route %r, the trees leave the chip by %r" % (k[0], k[1], e[0], sorted(outs))
+            return ("tables:route", "chip %r key %#x: route %r, the trees leave the chip by %r"
+                    % (k[0], k[1], e[0], sorted(outs)))
         ins = set(i for i, _ in seen[k])
         if set(e[3]) != ins:
-            return "chip %r key %#x: sources %r, the trees enter the chip from %r" % (k[0], k[1], e[3], sorted(ins))
+            return ("tables:sources", "chip %r key %#x: sources %r, the trees enter the chip from %r"
+                    % (k[0], k[1], e[3], sorted(ins)))
     return None
 
 
@@ -600,8 +603,7 @@ def run(chk, args):
             chk.count("trees:nets:%d" % len(c["routes"]))
             why = oracle_trees(c, o)
             if why:
-                chk.fail_input("tables:" + why.split(":")[0].split(",")[0][:48].replace(" ", "_"), why,
-                               dict(case=c, observed=o))
+                chk.fail_input(why[0], why[1], dict(case=c, observed=o))
         else:
             if isinstance(o, dict):
                 chk.count("load:outcome:" + o["outcome"][0])
